@@ -3342,12 +3342,12 @@ class sptensor:
 
             # Both nonzero
             if self.subs.size > 0 and other.subs.size > 0:
-                idxSelf = tt_intersect_rows(self.subs, other.subs)
-                idxOther = tt_intersect_rows(other.subs, self.subs)
-                newsubs = self.subs[idxSelf, :]
-                newvals = self.vals[idxSelf] / other.vals[idxOther]
+                # Pair each stored subscript of self with the same subscript of other
+                valid, loc = tt_ismember_rows(self.subs, other.subs)
+                newsubs = self.subs[valid, :]
+                newvals = self.vals[valid] / other.vals[loc[valid]]
             else:
-                newsubs = np.empty((0, len(self.shape)))
+                newsubs = np.empty((0, len(self.shape)), dtype=int)
                 newvals = np.empty((0, 1))
 
             # Self nonzero and other zero
@@ -3356,7 +3356,8 @@ class sptensor:
                 morevals = np.empty((moresubs.shape[0], 1))
                 morevals.fill(np.nan)
                 if moresubs.size > 0:
-                    newsubs = np.vstack((newsubs, SelfZeroSubs[moresubs, :]))
+                    # moresubs indexes self.subs
+                    newsubs = np.vstack((newsubs, self.subs[moresubs, :]))
                     newvals = np.vstack((newvals, morevals))
 
             # other nonzero and self zero
@@ -3365,7 +3366,8 @@ class sptensor:
                 morevals = np.empty((moresubs.shape[0], 1))
                 morevals.fill(0)
                 if moresubs.size > 0:
-                    newsubs = np.vstack((newsubs, OtherZeroSubs[moresubs, :]))
+                    # moresubs indexes other.subs
+                    newsubs = np.vstack((newsubs, other.subs[moresubs, :]))
                     newvals = np.vstack((newvals, morevals))
 
             # Both zero
